@@ -930,3 +930,185 @@ theorem hsDir_match : hsDirOut .rpDownloader = hsDirIn .rpSeeder ∧ hsDirOut .r
   simp [hsDirOut, hsDirIn]
 
 end Ipv8.C04
+
+/-! ### exit socket: nothing handed to `sendto` is lost or duplicated -/
+namespace Ipv8.C04
+
+def ind (i x : Nat) : Nat := if i = x then 1 else 0
+
+theorem count_cons' (x i : Nat) (l : List Nat) : (i :: l).count x = ind i x + l.count x := by
+  simp only [List.count_cons, ind, beq_iff_eq]; omega
+
+theorem pushCap_small (x : Nat × Nat) (q : List (Nat × Nat)) (h : q.length < 10) : pushCap x q = q ++ [x] := by
+  unfold pushCap; rw [if_neg (by omega)]
+
+theorem XSock.sendIp_held (s : XSock) (i a : Nat) (h : s.queue.length < 10) (x : Nat) :
+    (s.sendIp i a).held.count x = s.held.count x + [i].count x := by
+  unfold XSock.sendIp
+  split
+  · simp only [XSock.held, List.map_append, List.count_append, List.map_cons, List.map_nil, List.append_assoc,
+      List.cons_append, List.nil_append, count_cons', List.count_nil]; omega
+  · simp only [XSock.held, pushCap_small _ _ h, List.map_append, List.count_append, List.map_cons, List.map_nil,
+      List.append_assoc, List.cons_append, List.nil_append, count_cons', List.count_nil]; omega
+
+theorem XSock.sendIp_load (s : XSock) (i a : Nat) (h : s.queue.length < 10) :
+    (s.sendIp i a).queue.length + (s.sendIp i a).pending.length ≤ s.queue.length + s.pending.length + 1 := by
+  unfold XSock.sendIp
+  split
+  · simp
+  · simp [pushCap_small _ _ h]; omega
+
+theorem XSock.step_held (dns : Nat → Nat) (s : XSock) (ev : XEv) (h : s.queue.length + s.pending.length < 10) (x : Nat) :
+    ((s.step dns ev).held.count x = s.held.count x + ev.sentId.count x) ∧
+    (s.step dns ev).queue.length + (s.step dns ev).pending.length ≤ s.queue.length + s.pending.length + ev.sentId.length := by
+  cases ev with
+  | send i d =>
+    cases d with
+    | ip a =>
+      exact ⟨XSock.sendIp_held s i a (by omega) x, XSock.sendIp_load s i a (by omega)⟩
+    | name hh =>
+      constructor
+      · simp only [XSock.step, XSock.held, XEv.sentId, List.map_append, List.count_append, List.map_cons, List.map_nil, count_cons', List.count_nil]; omega
+      · simp [XSock.step, XEv.sentId]; omega
+  | resolved =>
+    simp only [XSock.step]
+    split
+    · rename_i hp; simp [XEv.sentId]
+    · rename_i i hh r hp
+      have h1 := XSock.sendIp_held { s with pending := r } i (dns hh) (by simp; omega) x
+      have h2 := XSock.sendIp_load { s with pending := r } i (dns hh) (by simp; omega)
+      constructor
+      · rw [h1]
+        simp only [XSock.held, hp, XEv.sentId, List.map_append, List.count_append, List.map_cons, count_cons', List.count_nil]
+        omega
+      · simp only [hp, List.length_cons, XEv.sentId, List.length_nil] at h2 ⊢; omega
+  | transportsReady =>
+    constructor
+    · simp [XSock.step, XSock.held, XEv.sentId, List.count_append]
+    · simp [XSock.step, XEv.sentId]
+
+theorem XSock.run_held (dns : Nat → Nat) (evs : List XEv) (s : XSock)
+    (h : s.queue.length + s.pending.length + (evs.flatMap XEv.sentId).length ≤ 10) (x : Nat) :
+    (s.run dns evs).held.count x = s.held.count x + (evs.flatMap XEv.sentId).count x := by
+  induction evs generalizing s with
+  | nil => simp [XSock.run]
+  | cons ev evs ih =>
+    simp only [List.flatMap_cons, List.length_append, List.count_append] at h ⊢
+    by_cases hs : ev.sentId = []
+    · -- not a send: the load does not grow
+      by_cases hfull : s.queue.length + s.pending.length < 10
+      · obtain ⟨h1, h2⟩ := XSock.step_held dns s ev hfull x
+        have := ih (s.step dns ev) (by rw [hs] at h2; simp at h2; omega)
+        simp only [XSock.run, List.foldl_cons] at this ⊢
+        rw [this, h1]; omega
+      · -- the socket already holds 10 datagrams and no further send follows: resolved / ready only move them
+        have hz : (evs.flatMap XEv.sentId).length = 0 := by omega
+        cases ev with
+        | send i d => simp [XEv.sentId] at hs
+        | transportsReady =>
+          obtain ⟨h1, h2⟩ : ((s.step dns .transportsReady).held.count x = s.held.count x + (XEv.sentId .transportsReady).count x) ∧
+              (s.step dns .transportsReady).queue.length + (s.step dns .transportsReady).pending.length ≤ s.queue.length + s.pending.length := by
+            constructor
+            · simp [XSock.step, XSock.held, XEv.sentId, List.count_append]
+            · simp [XSock.step]
+          have := ih (s.step dns .transportsReady) (by omega)
+          simp only [XSock.run, List.foldl_cons] at this ⊢
+          rw [this, h1]; omega
+        | resolved =>
+          by_cases hq : s.queue.length < 10
+          · have key : ((s.step dns .resolved).held.count x = s.held.count x) ∧
+                (s.step dns .resolved).queue.length + (s.step dns .resolved).pending.length ≤ s.queue.length + s.pending.length := by
+              simp only [XSock.step]
+              split
+              · simp
+              · rename_i i hh r hp
+                have h1 := XSock.sendIp_held { s with pending := r } i (dns hh) (by simpa using hq) x
+                have h2 := XSock.sendIp_load { s with pending := r } i (dns hh) (by simpa using hq)
+                constructor
+                · rw [h1]
+                  simp only [XSock.held, hp, List.map_append, List.count_append, List.map_cons, count_cons', List.count_nil]
+                  omega
+                · simp only [hp, List.length_cons] at h2 ⊢; omega
+            have := ih (s.step dns .resolved) (by omega)
+            simp only [XSock.run, List.foldl_cons] at this ⊢
+            rw [this, key.1]; simp [XEv.sentId]
+          · -- queue full (10) means nothing is pending (load ≤ 10)
+            have hp : s.pending = [] := by
+              cases hpp : s.pending with
+              | nil => rfl
+              | cons a b => rw [hpp] at h; simp at h; omega
+            have hst : s.step dns .resolved = s := by simp [XSock.step, hp]
+            have := ih s (by omega)
+            simp only [XSock.run, List.foldl_cons, hst] at this ⊢
+            rw [this]; simp [XEv.sentId]
+    · -- a send
+      have hl : 1 ≤ ev.sentId.length := by
+        cases ev <;> simp [XEv.sentId] at hs ⊢
+      obtain ⟨h1, h2⟩ := XSock.step_held dns s ev (by omega) x
+      have := ih (s.step dns ev) (by omega)
+      simp only [XSock.run, List.foldl_cons] at this ⊢
+      rw [this, h1]; omega
+
+/-! ### retiring exit sockets keeps every open socket covered by the routing table -/
+variable {A : Aead}
+
+theorem lookup_filter_ne {β : Type} (cid c : Nat) (t : List (Nat × β)) (h : c ≠ cid) :
+    List.lookup c (t.filter (fun p => p.1 != cid)) = List.lookup c t := by
+  induction t with
+  | nil => rfl
+  | cons p t ih =>
+    obtain ⟨k, v⟩ := p
+    by_cases hk : k = cid
+    · subst hk
+      have : (c == k) = false := by simpa using h
+      simp [List.filter, List.lookup, this, ih]
+    · have hk' : (k != cid) = true := by simpa using hk
+      simp only [List.filter, hk', List.lookup]
+      split <;> simp_all
+
+theorem ExitNode.removeStart_covered (x : ExitNode A) (cid : Nat) (h : x.covered = true) :
+    (x.removeStart cid).covered = true := h
+
+theorem ExitNode.removeFinish_covered (x : ExitNode A) (cid : Nat) (h : x.covered = true) :
+    (x.removeFinish cid).covered = true := by
+  simp only [ExitNode.covered, ExitNode.removeFinish, List.all_eq_true, List.mem_filter] at h ⊢
+  intro c hc
+  have hne : c ≠ cid := by simpa using hc.2
+  rw [lookup_filter_ne cid c _ hne]
+  exact h c hc.1
+
+theorem ExitNode.openSocket_covered (x : ExitNode A) (cid : Nat) (h : x.covered = true) :
+    (x.openSocket cid).covered = true := by
+  unfold ExitNode.openSocket
+  split
+  · rename_i hs
+    simp only [ExitNode.covered, List.all_cons, hs, Bool.true_and]
+    exact h
+  · exact h
+
+/-- return traffic of a covered open socket always leaves under one backward layer of the exit key -/
+theorem covered_return_encrypted (L : A.Laws) (x : ExitNode A) (cid target : Nat) (m : Bytes)
+    (hcov : x.covered = true) (hopen : cid ∈ x.openSocks) (hc : List.lookup cid x.nd.circuits = none) :
+    ∃ k c0, (sendCell x.nd target ⟨cid, false, false, m⟩).2 = some (target, c0) ∧
+      c0.msg = A.enc k .bwd x.nd.ctr m ∧ c0.msg ≠ m := by
+  simp only [ExitNode.covered, List.all_eq_true] at hcov
+  have := hcov cid hopen
+  cases hx : List.lookup cid x.nd.exits with
+  | none => simp [hx] at this
+  | some xe =>
+    obtain ⟨k, prev⟩ := xe
+    refine ⟨k, _, exit_send x.nd target cid prev false m k hc hx, rfl, ?_⟩
+    intro he
+    have := congrArg List.length he
+    rw [L.len_enc] at this
+    have := L.ovh_pos
+    omega
+
+/-- without any entry for the circuit id `outgoing_crypto` leaves the cell as it is: the message goes out in clear.
+    (This is why an open exit socket must never outlive its table entry.) -/
+theorem unknown_circuit_sent_in_clear (nd : Node A) (target cid : Nat) (m : Bytes)
+    (hc : List.lookup cid nd.circuits = none) (hx : List.lookup cid nd.exits = none) (hr : List.lookup cid nd.relays = none) :
+    (sendCell nd target ⟨cid, false, false, m⟩).2 = some (target, ⟨cid, false, false, m⟩) := by
+  simp [sendCell, hc, outgoingCrypto, hx, hr]
+
+end Ipv8.C04
